@@ -97,7 +97,7 @@ func containsCanary(resp *logical.Response, canary string) bool {
 	return false
 }
 
-var c18Sources = []string{"echo", "secret", "login", "kvread"}
+var c18Sources = []string{"echo", "secret", "login", "kvread", "list"}
 var c18Attempts = []string{"unwrap-self", "unwrap-3p", "rewrap", "lookup", "revoke", "cubby-read", "misuse"}
 
 type c18Task struct {
@@ -108,7 +108,7 @@ type c18Task struct {
 }
 
 func TestVerif_C18_UnwrapOnce(t *testing.T) {
-	rec := verifx.NewRecorder("C18", "unwrap-once", "a wrapped response (echo / leased secret / login / kv read) is created, then 2-4 concurrent attempts from {unwrap with the token as client token, unwrap with the token in the body under another token, rewrap, lookup, revoke by accessor, cubbyhole/response read, use on an ordinary path} run under a generated storage-step schedule (or sequentially, optionally after the wrap TTL lapsed); oracle: requester's response has wrap info only; payload deliveries over the whole chain (rewrapped tokens are redeemed afterwards) <= 1, and == 1 when every attempt was a redeeming one and none failed for another reason; afterwards token, accessor and cubbyhole entry are gone; lookup reports creation path and TTL; non-trivial = >=2 redeeming attempts (unwrap/rewrap/cubby-read) overlapping in the schedule, or a TTL lapse")
+	rec := verifx.NewRecorder("C18", "unwrap-once", "a wrapped response (echo / leased secret / login / kv read / list) is created, then 2-4 concurrent attempts from {unwrap with the token as client token, unwrap with the token in the body under another token, rewrap, lookup, revoke by accessor, cubbyhole/response read, use on an ordinary path} run under a generated storage-step schedule (or sequentially, optionally after the wrap TTL lapsed); oracle: requester's response has wrap info only; payload deliveries over the whole chain (rewrapped tokens are redeemed afterwards) <= 1, and == 1 when every attempt was a redeeming one and none failed for another reason; afterwards token, accessor and cubbyhole entry are gone; lookup reports creation path and TTL; non-trivial = >=2 redeeming attempts (unwrap/rewrap/cubby-read) overlapping in the schedule, or a TTL lapse")
 	defer rec.Flush()
 	envs := map[bool]*c18Env{}
 	defer func() {
@@ -162,6 +162,10 @@ func TestVerif_C18_UnwrapOnce(t *testing.T) {
 		case "kvread":
 			tc.mustOK(tc.req(logical.UpdateOperation, "rb/kv/wrapped", tc.root, map[string]any{"v": canary}), "seed")
 			creq = &logical.Request{Operation: logical.ReadOperation, Path: "rb/kv/wrapped", ClientToken: requester}
+		case "list":
+			// a wrapped list response: the key names are the payload
+			tc.mustOK(tc.req(logical.UpdateOperation, fmt.Sprintf("rb/kv/lst%d/%s", e.n, canary), tc.root, map[string]any{"v": "x"}), "seed")
+			creq = &logical.Request{Operation: logical.ListOperation, Path: fmt.Sprintf("rb/kv/lst%d/", e.n), ClientToken: requester}
 		}
 		creq.WrapInfo = &logical.RequestWrapInfo{TTL: wrapTTL}
 		seq0 := tc.rec.Seq()
